@@ -14,7 +14,7 @@ BUILTINS = {'len', 'isinstance', 'int', 'bool', 'float', 'hash', 'set', 'list', 
 SPEC_BUILTINS = {'old', 'forall', 'exists', 'implies', 'iff', 'ite', 'result', 'ident', 'cls_is', 'fresh_obj',
                  'keyobj', 'valobj', 'has', 'lower', 'slen', 'ulen', 'blen', 'bat', 'to_real', 'to_int',
                  'exact_class', 'mk_ident', 'rd_ptr', 'rd_srv', 'rd_text', 'rd_addr', 'rd_hinfo', 'rd_nsec',
-                 'some', 'nothing', 'as_', 'allocated', 'uf', 'unchanged', 'alias_of', 'list_eq', 'card', 'heap_eq', 'div', 'mod'}
+                 'some', 'nothing', 'as_', 'allocated', 'uf', 'bsum', 'bsum_unfold', 'unchanged', 'alias_of', 'list_eq', 'card', 'heap_eq', 'div', 'mod'}
 
 
 class ExprMixin:
@@ -232,7 +232,7 @@ class ExprMixin:
     def ev_UnaryOp(self, node, st, frame):
         for st1, v in self.ev(node.operand, st, frame):
             if isinstance(node.op, ast.Not):
-                yield st1, Sc(z3.Not(self.truth(v, st1)), BOOL)
+                yield st1, Sc(neg(self.truth(v, st1)), BOOL)
             elif isinstance(node.op, ast.USub):
                 t, k = self.num(v, st1)
                 if isinstance(v, PyConst):
@@ -477,13 +477,13 @@ class ExprMixin:
     def compare(self, op, a, b, st, frame, node):
         if isinstance(op, (ast.Is, ast.IsNot)):
             r = self.identical(a, b, st)
-            return r if isinstance(op, ast.Is) else z3.Not(r)
+            return r if isinstance(op, ast.Is) else neg(r)
         if isinstance(op, (ast.Eq, ast.NotEq)):
             r = self.equal(a, b, st, frame, node)
-            return r if isinstance(op, ast.Eq) else z3.Not(r)
+            return r if isinstance(op, ast.Eq) else neg(r)
         if isinstance(op, (ast.In, ast.NotIn)):
             r = self.contains(b, a, st, frame, node)
-            return r if isinstance(op, ast.In) else z3.Not(r)
+            return r if isinstance(op, ast.In) else neg(r)
         x, y, k = self.num2(a, b, st)
         return {ast.Lt: x < y, ast.LtE: x <= y, ast.Gt: x > y, ast.GtE: x >= y}[type(op)]
 
@@ -687,8 +687,9 @@ class ExprMixin:
                 yield st, FuncV('function', module=f.module, qualname=f.qualname, unbound=True)
                 return
             raise VCError('class attribute %s.%s' % (v.name, attr))
-        if isinstance(v, TupleV) or isinstance(v, FuncV):
-            pass
+        if isinstance(v, FuncV) and v.kind == 'dictconst' and hasattr(v, attr):
+            yield st, FuncV('stubmethod', recv=v, fn=getattr(v, attr))
+            return
         raise VCError('attribute %s on %r (line %s)' % (attr, v, getattr(node, 'lineno', '?')))
 
     def read_field(self, v, fs, st):
@@ -775,6 +776,14 @@ class ExprMixin:
         for st1, v in self.ev(node.value, st, frame):
             st1.locals[node.target.id] = v
             yield st1, v
+
+
+def neg(x):
+    if z3.is_true(x):
+        return z3.BoolVal(False)
+    if z3.is_false(x):
+        return z3.BoolVal(True)
+    return z3.Not(x)
 
 
 def same_terms(a, b):
